@@ -3,7 +3,7 @@
    the .ml lands there. *)
 From Coq Require Import Extraction ExtrOcamlBasic.
 From Coq Require Import List NArith.
-From FsDb Require Import VList VListRun Codec Core Spec ErrMap ErrMapInst Config Dirs Faults RW Pool CodecRepo Client.
+From FsDb Require Import VList VListRun Codec Core Spec ErrMap ErrMapInst Config Dirs Faults RW Pool CodecRepo Client Stream.
 
 Extraction Language OCaml.
 
@@ -18,4 +18,5 @@ Extraction "fsdb_model.ml"
   Faults.run_faults Faults.src_bytes
   RW.rw_params RW.rw_init RW.rw_trace RW.rw_enum RW.rw_final RW.rw_stuck RW.rw_bound RW.rw_writes RW.rw_initial_obs RW.rw_outcome RW.sw_chunks
   CodecRepo.run_batch
+  Stream.sr_run
   Pool.pl_mkpar Pool.pl_init Pool.pl_trace Pool.pl_enum Pool.pl_quiet Pool.pl_stranded Pool.pl_initial_obs Pool.pl_outcome Pool.pl_is_live Pool.pl_threads Pool.pl_enabled.
